@@ -427,6 +427,45 @@ def purity_unify(F, rep):
         rejected = {k for k, v in verdict.items() if v[0] == "err"}
         rep.ob("PURITY-UNIFY", "sub_unify|purity-pairs", rejected == {("Pure", "Impure"), ("Impure", "Pure")} and len(verdict) == 9,
                "function types with purities %s do not unify (expected exactly Pure/Impure both ways)" % sorted(rejected), line_of(rows))
+        # the purity a wildcard (Undefined) meets must survive the merge on *both* nodes: union() keeps only the
+        # representative's type, so otherwise Impure -> Undefined -> Pure passes whenever the Undefined node wins
+        fl_su = Flow(fsu, fn_body(fsu))
+        keeps = set()
+        arm_of_rows = None
+        for m2 in nodes(fn_body(fsu), "Match"):
+            for a2 in m2["arms"]:
+                if any(x is rows for x in nodes(a2["body"], "Match")):
+                    arm_of_rows = a2
+        if arm_of_rows is not None:
+            for asg in nodes(arm_of_rows["body"], "Assign"):
+                l = peel(asg["l"])
+                r = peel(asg["r"])
+                if l.get("k") == "Field" and l["name"] == "ty" and r.get("k") == "Call" and (callee(r) or "").endswith("Type::Function") and len(r["args"]) == 3:
+                    src = peel(fl_su.trace(r["args"][2])) if peel(r["args"][2]).get("k") == "Path" else peel(r["args"][2])
+                    if src.get("k") == "MethodCall" and src["m"] == "clone":
+                        src = peel(fl_su.trace(src["recv"])) if peel(src["recv"]).get("k") == "Path" else peel(src["recv"])
+                    if src is rows or any(x is rows for x in nodes(src)):
+                        tgt = [x.get("name") for c in nodes(l["e"], "MethodCall") if c["m"] == "find_node_mut" for x in nodes(c["args"], "Path")]
+                        keeps |= set(tgt)
+        rep.ob("PURITY-UNIFY", "sub_unify|merge-keeps-purity", keeps >= {"a", "b"},
+               "after two function types are unified both nodes carry the merged purity (Undefined takes on what it met): %s" % sorted(keeps)
+               if keeps >= {"a", "b"} else
+               "the purity an Undefined (`fn`-annotated) function type meets is not written back: union() keeps one node's type, so "
+               "`alias : fn -> int : impure_fn` followed by `p : pu -> int : alias` is accepted when the annotation's node survives",
+               line_of(rows))
+    # externals: the declaration is the only source of purity, `fn` must mean Impure there
+    fos = F.fn(TC + "outer_statement")
+    forced = False
+    for arm, alt in tc.arm_of(F, fos, NR + "Statement", "ExternalDefinition"):
+        for asg in nodes(arm["body"], "Assign"):
+            r = peel(asg["r"])
+            if r.get("k") == "Call" and (callee(r) or "").endswith("Type::Function") and len(r["args"]) == 3:
+                p3 = peel(r["args"][2])
+                forced = p3.get("k") == "Path" and norm_path(p3.get("path") or "").endswith("Purity::Impure")
+    rep.ob("PURITY-UNIFY", "outer_statement|external-fn-is-impure", forced,
+           "an external declared with `fn` gets Purity::Impure (its declaration is all that is known about it)" if forced else
+           "an external declared `fn` keeps the wildcard purity of an annotation: `tick : fn -> int : external` is accepted where a "
+           "`pu -> int` is declared (`h : pu -> int : tick`) and a pure function may then call it", fos["sp"])
     ftf = F.fn(TC + "type_from_function")
     rep.analysed(ftf)
     ok = False
